@@ -379,8 +379,11 @@ def near_float_bases(rng):
     if r < 0.50:      # a power of two (also negative): the spacing of the doubles changes there
         return (rng.randrange(0, 2) << 63) | (rng.choice([1, 2, 3, 0x3fe, 0x3ff, 0x400, 0x401, 0x433, 0x434, 0x7fd, 0x7fe] + [rng.randrange(1, 0x7ff)]) << 52)
     if r < 0.65: return fbits(rng.choice(ARITH_PAIRS)[rng.randrange(2)])
-    if r < 0.80: return fbits(rng.randrange(-1000, 1000) / rng.choice([1.0, 3.0, 7.0, 10.0, 1000.0]))
-    if r < 0.90: return rng.getrandbits(52) | (rng.randrange(0, 2) << 63)           # subnormal
+    if r < 0.72: return fbits(rng.randrange(-1000, 1000) / rng.choice([1.0, 3.0, 7.0, 10.0, 1000.0]))
+    if r < 0.78: return fbits(rng.choice([1.0, -1.0]) * rng.randrange(1, 10) * 10.0 ** rng.randrange(-300, 301))
+    if r < 0.90:      # everyday magnitudes: 2^-64 .. 2^64, any mantissa
+        return (rng.randrange(0, 2) << 63) | (rng.randrange(0x3ff - 64, 0x3ff + 65) << 52) | rng.getrandbits(52)
+    if r < 0.95: return rng.getrandbits(52) | (rng.randrange(0, 2) << 63)           # subnormal
     while True:
         b = rng.getrandbits(64)
         if (b & 0x7fffffffffffffff) <= 0x7ff0000000000000: return b
